@@ -414,6 +414,24 @@ func RunSeq(seed int64, p SeqProfile) (out []Ev) {
 			g.dump()
 			continue
 		}
+		if !p.Keyed && g.rnd.Float64() < 0.15 {
+			// one operation through the collection's one-call shortcuts (Insert, QueryAt, DeleteAt)
+			r := g.rnd.Float64()
+			switch {
+			case r < p.PInsert:
+				g.P.ShortInsert("m", g.writes(g.P.Cols, g.rnd.Intn(4), 0, false), g.rnd.Float64() < p.PFailIns)
+			case r < p.PInsert+p.PDelete:
+				if o, ok := g.pick(); ok {
+					g.P.ShortDelete("m", o)
+				}
+			default:
+				if o, ok := g.pick(); ok {
+					g.P.ShortAt("m", o, g.writes(g.P.Cols, 1+g.rnd.Intn(3), o, true), g.rnd.Intn(3) == 0, g.rnd.Intn(3), g.rnd.Float64() < p.PRollback)
+				}
+			}
+			g.dump()
+			continue
+		}
 		nbody := 1 + g.rnd.Intn(p.MaxBody)
 		rollback := g.rnd.Float64() < p.PRollback
 		g.P.Txn("m", func(x *Tx) error {
